@@ -100,9 +100,13 @@ func vpH_C19_fault() {
 	b := vpPersist(vpBuild(docs, 1025))
 	seg, file := vpLoadFile(b)
 	// fault-free reference run of the same call sequence counts the reads
-	ops := []int{vpChoice("op1", len(vpFaultOps)), vpChoice("op2", len(vpFaultOps)), vpChoice("op3", 2)}
+	n3, maxK := 2, uint64(12)
+	if vpThorough() {
+		n3, maxK = len(vpFaultOps), 40
+	}
+	ops := []int{vpChoice("op1", len(vpFaultOps)), vpChoice("op2", len(vpFaultOps)), vpChoice("op3", n3)}
 	start := file.reads
-	file.failFrom = start + int(vpRange("k", 0, 12))
+	file.failFrom = start + int(vpRange("k", 0, maxK))
 	for _, k := range ops {
 		vpNote("call:" + vpFaultOps[k])
 		vpFaultOp(k, seg, file)
